@@ -15,7 +15,7 @@ ROOT = os.path.dirname(os.path.dirname(os.path.abspath(__file__)))
 def one(name):
     d = os.path.join(ROOT, 'seeded', name)
     meta = json.load(open(os.path.join(d, 'meta.json')))
-    r = subprocess.run([sys.executable, os.path.join(ROOT, 'bin', 'seedtest.py'), 'run-scratch', d],
+    r = subprocess.run([sys.executable, os.path.join(ROOT, 'bin', 'seedtest.py'), 'run-scratch', d] + meta.get('properties_to_run', []),
                        stdout=subprocess.PIPE, stderr=subprocess.STDOUT, text=True)
     last = r.stdout.strip().splitlines()[-1] if r.stdout.strip() else '{}'
     try:
